@@ -352,3 +352,57 @@ pub fn run_with_args() -> Xresult {
     }
     OK
 }
+
+/// Verification hook (feature `verif_hooks`): drives the real `run_line` and the real hinter
+/// (trial-mode evaluate-and-reset) without a terminal or line editor.
+#[cfg(feature = "verif_hooks")]
+pub mod verif {
+    use super::*;
+
+    pub struct Session {
+        st: ReplStateRc,
+        helper: XsHelper,
+    }
+
+    impl Session {
+        /// what `run_tty_repl` does before its read loop
+        pub fn new(xs: Xstate) -> Session {
+            let mut st = ReplState { xs, trial: None, snapshots: Vec::new() };
+            switch_to_trial(&mut st);
+            let rc = ReplStateRc::new(ReplStateRef::new(st));
+            Session { helper: XsHelper(Vec::new(), rc.clone()), st: rc }
+        }
+
+        /// the user hits Enter on `line`
+        pub fn enter(&self, line: &str) {
+            let mut st = (*self.st).borrow_mut();
+            run_line(&mut st, line);
+        }
+
+        /// the user has typed `line` so far: the hinter evaluates it and resets
+        pub fn keystrokes(&self, line: &str) -> Option<String> {
+            use rl::hint::Hinter;
+            let history = rl::history::History::new();
+            let ctx = rl::Context::new(&history);
+            self.helper.hint(line, line.len(), &ctx).map(|h| h.0)
+        }
+
+        pub fn with_live<T>(&self, f: impl FnOnce(&mut Xstate) -> T) -> T {
+            let mut st = (*self.st).borrow_mut();
+            f(&mut st.xs)
+        }
+
+        pub fn snapshots(&self) -> usize {
+            (*self.st).borrow().snapshots.len()
+        }
+
+        pub fn with_snapshot<T>(&self, i: usize, f: impl FnOnce(&Xstate) -> T) -> Option<T> {
+            let st = (*self.st).borrow();
+            st.snapshots.get(i).map(f)
+        }
+
+        pub fn is_trial(&self) -> bool {
+            (*self.st).borrow().trial.is_some()
+        }
+    }
+}
